@@ -69,6 +69,12 @@ var wConsLead = []string{"", "", "", "\n", "\n\n", "  ", "\t", " \n\t"}
 var wConsTrue = []string{"goat", "!linux", "goat || linux", "goat && !ignore", "!(linux && goat)", "!ignore", "goat || ignore", "(goat)", "!go1.21", "goat && !go1.18", "!cgo", "!gc", "goat && !unix", "!goat2", "!goa"}
 var wConsFalse = []string{"!goat", "linux", "ignore", "goat && linux", "!goat || windows", "!(goat || linux)", "linux || windows", "goat && ignore", "go1.21", "goat && go1.18", "go1.1", "cgo", "gc", "unix", "amd64 || arm64", "goat2", "Goat", "goa"}
 
+func init() {
+	// constraint lines well beyond 128 bytes whose last term decides
+	wConsTrue = append(wConsTrue, strings.Repeat("linux || ", 16)+"goat", strings.Repeat("!goat || ", 15)+"!windows")
+	wConsFalse = append(wConsFalse, "goat && "+strings.Repeat("!linux && ", 14)+"!goat", strings.Repeat("windows || ", 13)+"plan9")
+}
+
 func alias(path string) string {
 	if i := strings.LastIndexByte(path, '/'); i >= 0 {
 		return path[i+1:]
@@ -197,10 +203,35 @@ func GenWorld(r *core.PRNG, o WorldOpts) *LWorld {
 		if o.Decoys {
 			if r.Chance(1, 2) {
 				lf := &LFile{Name: core.Pick(r, []string{"a_test.go", "main_test.go", "x_test.go"}), Test: true}
+				external := r.Chance(1, 3) // an external test package: clause <name>_test
 				for v := 0; v < o.Versions; v++ {
-					lf.Vers = append(lf.Vers, w.genFile(r, p, lf, 90, v, nil, useHost, true, false, false))
+					fv := w.genFile(r, p, lf, 90, v, nil, useHost, true, false, false)
+					if external {
+						fv.Data = strings.Replace(fv.Data, "package "+p.Name+"\n", "package "+p.Name+"_test\n", 1)
+					}
+					lf.Vers = append(lf.Vers, fv)
 				}
 				p.Files = append(p.Files, lf)
+			}
+			if useHost && i > 0 && r.Chance(1, 3) {
+				// another package of the same name at a place that is searched LATER than where the
+				// real one lives: the first match wins, this one must never run
+				parts := strings.Split(p.Path, "/")
+				cands := []string{"vendor/" + p.Path, p.Path}
+				for k := 1; k < len(parts); k++ {
+					cands = append(cands, strings.Join(parts[k:], "/"))
+				}
+				at := -1
+				for k, c := range cands {
+					if c == p.Dir {
+						at = k
+					}
+				}
+				if at >= 0 && at+1 < len(cands) {
+					d := cands[at+1+r.Intn(len(cands)-at-1)]
+					m := fmt.Sprintf("DECOY:%s/shadow.go/top0", d)
+					w.Ghosts = append(w.Ghosts, core.DiskFile{Path: d + "/shadow.go", Data: []byte(fmt.Sprintf("package %s\nimport \"host\"\nvar shadowed = host.Mark(%q)\nfunc Use%d() int { return -1 }\nfunc init() { host.Mark(%q) }\n", p.Name, m, i, strings.Replace(m, "/top0", "/init0", 1)))})
+				}
 			}
 			if r.Chance(1, 2) {
 				lf := &LFile{Name: core.Pick(r, []string{"excl.go", "c_linux.go", "aa.go", "zz.go"}), Excluded: true, Cons: "//go:build " + core.Pick(r, wConsFalse), Lead: core.Pick(r, wConsLead)}
